@@ -112,6 +112,10 @@ def run(ctx):
             r.eq('only-while-throttled', gs, ['!self.channels_are_registered'], site, why='deregister exactly when the other channels are currently not polled')
             r.check('register-unconditional', not [g for g in reg[0].guards if g[2] == 'if'], site)
 
+    with ctx.rule('R18.6', 'what is buffered is written exactly once and in order across stalls: write-loop bookkeeping and accessors (shared with C01)', floor=15) as r:
+        A.include(ctx, r, 'c01', 'R01.2')
+        A.include(ctx, r, 'c01', 'R01.7')
+
     with ctx.rule('R18.5', 'channel data enters outbuf only through process_channel_message, from the two readable handlers', floor=3) as r:
         A.unique_callers(ctx, r, 'append:callers', 'serialize::SealableOutputBuffer::append', ['io_loop::Inner::process_channel_message'])
         A.unique_callers(ctx, r, 'process_channel_message:callers', 'io_loop::Inner::process_channel_message', ['io_loop::Inner::handle_channel0_readable', 'io_loop::Inner::handle_channel_readable'])
